@@ -55,6 +55,12 @@ inductive Lookup where
   | perCall | cachedPerThread | atImport | other
   deriving DecidableEq, Repr
 
+/-- What a return path of `opt()` hands on as the depth option: its own `depth` parameter, nothing
+(so the callee's default applies), or a constant. -/
+inductive DepthFwd where
+  | param | default | const (k : Int)
+  deriving DecidableEq, Repr
+
 /-- How a public logging method derives the options it hands to `_log` from `self._options`:
 `selfOptions` = `__self._options` itself; `prependDrop p d` = a `p`-tuple of constants followed by
 `__self._options[d:]` (the shape of `exception()`: `(True,) + __self._options[1:]`). -/
